@@ -113,8 +113,11 @@ def draw_edit(r, spec, pool, q, rules_so_far, faults=True):
             'config': r.choice(['bad_w16', 'bad_w2', 'bad_a16asym', 'bad_drq_asym', 'fp16']),
             'algorithm': A.MINMAX, 'spelling': sp, 'fault': 'rejected_update'}
   rg, op, cfg, algo = draw_rule(r, spec, pool)
-  return {'op': 'update', 'q': q, 'regex': rg, 'operation': op, 'config': cfg,
-          'algorithm': algo, 'spelling': sp}
+  e = {'op': 'update', 'q': q, 'regex': rg, 'operation': op, 'config': cfg,
+       'algorithm': algo, 'spelling': sp}
+  if r.random() < 0.3:
+    e['defaults'] = r.choice([True, 'kw'])
+  return e
 
 
 def looks_accepted(op):
@@ -149,6 +152,21 @@ def shipped_path(name):
   return os.path.join(os.path.dirname(ai_edge_quantizer.__file__), 'recipes', name + '.json')
 
 
+def call_update(fn, op, cfg, sp):
+  """Call update_quantization_recipe / add_quantization_config; with op['defaults'] the arguments
+  that equal the documented defaults (algorithm_key, op_config=None) are left out of the call."""
+  regex, oper, algo = op['regex'], A.mk_op(op['operation'], sp), A.mk_algo(op['algorithm'], sp)
+  if op.get('defaults') and op['algorithm'] == A.MINMAX:
+    if cfg is None:
+      return fn(regex, oper)
+    if op.get('defaults') == 'kw':
+      return fn(regex, oper, op_config=cfg)
+    return fn(regex, oper, cfg)
+  if op.get('defaults') == 'kw':
+    return fn(regex=regex, operation_name=oper, op_config=cfg, algorithm_key=algo)
+  return fn(regex, oper, cfg, algo)
+
+
 def apply_edit(q, op, other_export=None):
   """Apply an update/load op to a real Quantizer. Returns (outcome, recipe-call record).
 
@@ -163,8 +181,7 @@ def apply_edit(q, op, other_export=None):
     except ValueError:
       return 'config-invalid', None
     try:
-      q.update_quantization_recipe(op['regex'], A.mk_op(op['operation'], sp), cfg,
-                                   A.mk_algo(op['algorithm'], sp))
+      call_update(q.update_quantization_recipe, op, cfg, sp)
       return 'accepted', op
     except Exception as e:  # pylint: disable=broad-except
       return 'rejected:' + harness.exc_class(e), op
